@@ -83,6 +83,7 @@ func main() {
 			tier = "quick"
 		}
 		r := ev.New(os.Args[2], tier, p.level)
+		r.ChildResult = res
 		p.child(r, args[:len(args)-1])
 		if err := r.DumpTo(res); err != nil {
 			fmt.Fprintln(os.Stderr, "dump:", err)
